@@ -683,6 +683,22 @@ func (w *World) ExpectAdmin(a *Admin) Expect {
 		if isSystemTable(a.Table) || t == nil {
 			return MustRefuse
 		}
+		if a.Kind == "alterrename" {
+			// a column that an x_lower! column / index is based on cannot be
+			// renamed (db19 630468b; before that the single rename was refused
+			// by the final validation and the swap form was finding
+			// C21/rename-lower-base)
+			for _, f := range a.From {
+				if slices.Contains(t.Derived, f+"_lower!") {
+					return MustRefuse
+				}
+				for _, ix := range t.Idx {
+					if slices.Contains(ix.Cols, f+"_lower!") {
+						return MustRefuse
+					}
+				}
+			}
+		}
 	case "rename":
 		if isSystemTable(a.Table) || isSystemTable(a.To[0]) || t == nil || w.Tables[a.To[0]] != nil {
 			return MustRefuse
